@@ -248,6 +248,15 @@ func renderStmts(sb *strings.Builder, ss []Stmt, d int) {
 				fmt.Fprintf(sb, "%s}\n", ind(d+1))
 			}
 			fmt.Fprintf(sb, "%s}\n", ind(d))
+		case "action":
+			// c: the leaves of the output; desc "with-input": an input as well
+			fmt.Fprintf(sb, "%saction %s {\n", ind(d), s.N)
+			if s.Desc == "with-input" {
+				fmt.Fprintf(sb, "%sinput {\n%sleaf arg {\n%stype string;\n%s}\n%s}\n", ind(d+1), ind(d+2), ind(d+3), ind(d+2), ind(d+1))
+			}
+			fmt.Fprintf(sb, "%soutput {\n", ind(d+1))
+			renderStmts(sb, s.C, d+2)
+			fmt.Fprintf(sb, "%s}\n%s}\n", ind(d+1), ind(d))
 		default:
 			fmt.Fprintf(sb, "%s%s %s {\n", ind(d), s.K, s.N)
 			if s.K == "list" && len(s.Keys) > 0 {
@@ -313,7 +322,11 @@ func toNodes(kids []PNode, parentCfg bool, parentName string, path string, in *i
 	out := []Node{}
 	for _, k := range kids {
 		switch k.K {
-		case "rpc", "notification", "again":
+		case "rpc", "notification":
+			// not part of the compared tree; the integrity of the copy still is
+			walkIntegrity(k, path+"/"+k.N, in)
+			continue
+		case "again":
 			continue
 		}
 		n := Node{K: k.K, N: k.N, Mand: k.Mand == "true", Desc: k.Desc, Keys: k.Keys, C: []Node{}, Units: k.Units, Et: EffType{Rngs: []string{}, En: []EnumV{}, Ids: []string{}}}
@@ -360,6 +373,19 @@ func toNodes(kids []PNode, parentCfg bool, parentName string, path string, in *i
 		out = append(out, n)
 	}
 	return out
+}
+
+func walkIntegrity(k PNode, path string, in *integrity) {
+	for _, c := range k.Kids {
+		p := path + "/" + c.N
+		if c.PtrDup {
+			in.shared = append(in.shared, p)
+		}
+		if c.K != "input" && c.K != "output" && c.Parent != k.N && k.K != "rpc" {
+			in.parent = append(in.parent, p+" (Parent()="+c.Parent+")")
+		}
+		walkIntegrity(c, p, in)
+	}
 }
 
 // case {kind:"meaning", ms, on: [features], features: [all declared]}
